@@ -441,3 +441,22 @@ Theorem C07_b_blank_stop_reading : forall b i r o l, buf_wf b -> nl_canon b -> i
    forall k, idx b r 0 <= k < i -> uc_isspace (fchr b k) = true).
 Proof. exact b_blank_stop_reading. Qed.
 Print Assumptions C07_b_blank_stop_reading.
+
+(* count 1 is exactly one scan (so C07_word_motions_count with count 1 is "the first stop") *)
+Theorem C07_count_one : forall step i j, chain step 1 i j <-> exists s, step i j s.
+Proof. exact chain_one. Qed.
+Print Assumptions C07_count_one.
+
+(* on the column model of a left-to-right line display order is offset order: the neighbouring
+   character of C07_h_l_step is the character displayed immediately left / right *)
+Theorem C07_columns_increasing : forall l i j, 0 <= i < j -> j < slen l -> ren_pos l i < ren_pos l j.
+Proof. exact columns_increasing. Qed.
+Print Assumptions C07_columns_increasing.
+
+(* N% (with a count) is the line motion to row (len-1)*N/100 and fails above 100 *)
+Theorem C07_percent_line : forall b rows top cl cc pc cnt row off,
+  vi_motion b rows top cl cc pc true cnt Kpct row off =
+  if 100 <? cnt then MvFail cl cc
+  else MvOk (Z.max 0 (Z.max 0 (blen b - 1) * cnt / 100)) (-1) cl cc pc.
+Proof. exact percent_line. Qed.
+Print Assumptions C07_percent_line.
